@@ -235,14 +235,9 @@ def check_spin_flatten(ctx, rid, floor=8):
 
 
 
-def run(ctx):
+def check_rep_rows(ctx, rid, floor=20, only_files=None):
+    """representative-row rule (shared with C03/C04: the SCF pipeline packs, diagonalises and unpacks with these sizes)"""
     repo = ctx.repo
-    ctx.rule("R1", "representative-row rule: T[0] used for the whole batch only under a uniformity fact about T (local guard or on every call chain)")
-    ctx.rule("R2", "spin flattening: (B,2,N,N) -> (2B,N,N) pairs with repeat_interleave(2) of per-molecule vectors")
-    ctx.rule("R3", "fractional occupations are masked on padding orbitals before any reduction or density build")
-    ctx.rule("R4", "Parser index arithmetic: block indices of atoms and pairs equal m*S^2 + i*S + j on an exhaustive small domain")
-
-    # ------------------------------------------------------------------ R1
     mods = list(repo.modules("seqm"))
     fn_index = {}     # simple name -> [(mod, qual, func)]
     for m in mods:
@@ -262,7 +257,7 @@ def run(ctx):
                 f = facts_at(m, node, func, defs)
                 if k in f:
                     n_local += 1
-                    ctx.ok("R1", f"{short(m.rel)}:{qual}", f"`{norm(node)}` is read under a local uniformity guard on {k}")
+                    ctx.ok(rid, f"{short(m.rel)}:{qual}", f"`{norm(node)}` is read under a local uniformity guard on {k}")
                 else:
                     need.setdefault((m.rel, qual), {}).setdefault(k, node)
     # propagate requirements up the call graph
@@ -292,22 +287,22 @@ def run(ctx):
         wnode = need[origin][k]
         om = repo.mod(origin[0])
         if (rel, qual, k) in REP_OK or (origin[0], origin[1], k) in REP_OK:
-            ctx.ok("R1", f"{short(origin[0])}:{origin[1]}", f"row-0 read of {k}: inventoried exception ({REP_OK.get((origin[0], origin[1], k)) or REP_OK.get((rel, qual, k))})")
+            ctx.ok(rid, f"{short(origin[0])}:{origin[1]}", f"row-0 read of {k}: inventoried exception ({REP_OK.get((origin[0], origin[1], k)) or REP_OK.get((rel, qual, k))})")
             continue
         proto = [why for prel, pq, why in PROTOCOL_CALLERS if rel == prel and qual.startswith(pq)]
         if proto:
-            ctx.ok("R1", f"{short(origin[0])}:{origin[1]}", f"`{norm(wnode)}` [{k}] reached via {qual}: protocol discharge ({proto[0]})")
+            ctx.ok(rid, f"{short(origin[0])}:{origin[1]}", f"`{norm(wnode)}` [{k}] reached via {qual}: protocol discharge ({proto[0]})")
             continue
         if not sites:
             if qual.startswith(ENTRY_PREFIXES):
                 key = (origin, k)
                 if key not in reported:
                     reported.add(key)
-                    ctx.fail("R1", om, wnode, origin[1], f"{norm(wnode)} [{k}] via {' <- '.join(q for _, q in chain)}",
+                    ctx.fail(rid, om, wnode, origin[1], f"{norm(wnode)} [{k}] via {' <- '.join(q for _, q in chain)}",
                              f"`{norm(wnode)}` takes row 0 of the per-molecule quantity {k} for the whole batch, and no uniformity guard on {k} exists on the call chain "
                              f"{' <- '.join(q for _, q in chain)}: in a batch whose molecules differ in {k} every other molecule is processed with molecule 0's value")
             else:
-                ctx.ok("R1", f"{short(origin[0])}:{origin[1]}", f"`{norm(wnode)}` [{k}]: {qual} has no caller in the package (library helper with a documented uniform-batch precondition)", nontrivial=False)
+                ctx.ok(rid, f"{short(origin[0])}:{origin[1]}", f"`{norm(wnode)}` [{k}]: {qual} has no caller in the package (library helper with a documented uniform-batch precondition)", nontrivial=False)
             continue
         for cm, cq, cf, call in sites:
             cdefs = _defs(cf)
@@ -315,22 +310,23 @@ def run(ctx):
             # facts established earlier in the caller by an early-exit guard are included by controlling()
             if k in f:
                 n_chain += 1
-                ctx.ok("R1", f"{short(origin[0])}:{origin[1]}", f"`{norm(wnode)}` [{k}] is discharged at {short(cm.rel)}:{cq} (call of {simple} under a uniformity fact on {k})")
+                ctx.ok(rid, f"{short(origin[0])}:{origin[1]}", f"`{norm(wnode)}` [{k}] is discharged at {short(cm.rel)}:{cq} (call of {simple} under a uniformity fact on {k})")
             else:
                 if len(chain) >= 8:
-                    ctx.fail("R1", om, wnode, origin[1], f"{norm(wnode)} [{k}]", f"requirement on {k} not discharged within 8 call levels")
+                    ctx.fail(rid, om, wnode, origin[1], f"{norm(wnode)} [{k}]", f"requirement on {k} not discharged within 8 call levels")
                     continue
                 work.append(((cm.rel, cq), k, chain + [(cm.rel, cq)]))
                 need.setdefault((cm.rel, cq), {}).setdefault(k, wnode)
                 # keep the original witness for reports
                 need[(cm.rel, cq)][k] = wnode
                 need.setdefault(origin, {})[k] = wnode
-    ctx.floor("R1", 20)
+    ctx.floor(rid, floor)
 
-    # ------------------------------------------------------------------ R2
-    check_spin_flatten(ctx, "R2")
 
-    # ------------------------------------------------------------------ R3
+
+def check_masked_occupations(ctx, rid):
+    """fractional occupations are masked on padding orbitals (shared with C03: trace / charge of the fractional-occupation solver)"""
+    repo = ctx.repo
     fq = repo.mod("seqm/seqm_functions/fermi_q.py")
     n3 = 0
     for qual, func in fq.functions.items():
@@ -372,15 +368,33 @@ def run(ctx):
                 par = fq.parents.get(n)
                 is_masking = isinstance(par, ast.BinOp) and isinstance(par.op, ast.Mult) and any(isinstance(x, ast.Name) and x.id in masks for x in (par.left, par.right))
                 n3 += 1
-                ctx.check(is_masking, "R3", fq, n, qual, f"use of {n.id} in `{short(norm(fq.enclosing_stmt(n)))}`",
+                ctx.check(is_masking, rid, fq, n, qual, f"use of {n.id} in `{short(norm(fq.enclosing_stmt(n)))}`",
                           f"raw occupations {n.id} are only used to form the masked occupations",
                           f"the unmasked Fermi occupations `{n.id}` are used in `{short(norm(fq.enclosing_stmt(n)))}`: padding orbitals (reported with eigenvalue 0) receive "
                           f"occupation whenever the chemical potential is above 0, so the electron count and density of a padded molecule depend on the padding width")
-        ctx.check(bool(masked), "R3", fq, func, qual, "masked occupations", f"occupations {sorted(masked)} = raw * valid-orbital mask {sorted(masks)}",
+        ctx.check(bool(masked), rid, fq, func, qual, "masked occupations", f"occupations {sorted(masked)} = raw * valid-orbital mask {sorted(masks)}",
                   f"{qual} computes Fermi occupations {sorted(raw)} but never multiplies them with the valid-orbital mask {sorted(masks) or '(none found)'}: padding orbitals are "
                   f"occupied whenever the chemical potential is above their (zero) eigenvalue")
         n3 += 1
-    ctx.floor("R3", 2)
+    ctx.floor(rid, 2)
+
+
+
+def run(ctx):
+    repo = ctx.repo
+    ctx.rule("R1", "representative-row rule: T[0] used for the whole batch only under a uniformity fact about T (local guard or on every call chain)")
+    ctx.rule("R2", "spin flattening: (B,2,N,N) -> (2B,N,N) pairs with repeat_interleave(2) of per-molecule vectors")
+    ctx.rule("R3", "fractional occupations are masked on padding orbitals before any reduction or density build")
+    ctx.rule("R4", "Parser index arithmetic: block indices of atoms and pairs equal m*S^2 + i*S + j on an exhaustive small domain")
+
+    # ------------------------------------------------------------------ R1
+    check_rep_rows(ctx, "R1")
+
+    # ------------------------------------------------------------------ R2
+    check_spin_flatten(ctx, "R2")
+
+    # ------------------------------------------------------------------ R3
+    check_masked_occupations(ctx, "R3")
 
     # ------------------------------------------------------------------ R4
     bas = repo.mod("seqm/basics.py")
